@@ -85,6 +85,28 @@ fn bound(kind: u8, v: u8) -> Bound<u8> {
     }
 }
 
+static mut IDT_EVALS: u32 = 0;
+static mut RANGE_EVALS: u32 = 0;
+
+fn once_idt(idt: &mut InterruptDescriptorTable) -> &mut InterruptDescriptorTable {
+    unsafe { core::ptr::write_volatile(&raw mut IDT_EVALS, core::ptr::read_volatile(&raw const IDT_EVALS) + 1) };
+    idt
+}
+fn once_range(r: core::ops::RangeInclusive<u8>) -> core::ops::RangeInclusive<u8> {
+    unsafe { core::ptr::write_volatile(&raw mut RANGE_EVALS, core::ptr::read_volatile(&raw const RANGE_EVALS) + 1) };
+    r
+}
+pub fn evals_reset() {
+    unsafe {
+        core::ptr::write_volatile(&raw mut IDT_EVALS, 0);
+        core::ptr::write_volatile(&raw mut RANGE_EVALS, 0);
+    }
+}
+/// how often the table expression and the range expression of form 7 were evaluated
+pub fn evals() -> (u32, u32) {
+    unsafe { (core::ptr::read_volatile(&raw const IDT_EVALS), core::ptr::read_volatile(&raw const RANGE_EVALS)) }
+}
+
 macro_rules! forms {
     ($all:ident, $lit:ident, $range:ident, $h:ident) => {
         /// `set_general_handler!(idt, handler)` — the whole-table form.
@@ -114,6 +136,9 @@ macro_rules! forms {
                 3 => set_general_handler!(idt, $h, ..hi),
                 4 => set_general_handler!(idt, $h, ..=hi),
                 5 => set_general_handler!(idt, $h, ..),
+                // both arguments are expressions with a side effect (a work-list pop, a per-CPU
+                // iterator): each must be evaluated exactly once
+                7 => set_general_handler!(once_idt(idt), $h, once_range(lo..=hi)),
                 _ => set_general_handler!(idt, $h, (bound(sk, lo), bound(ek, hi))),
             }
         }
